@@ -2,6 +2,36 @@ package redis
 
 func init() {
 	vsymHarnesses["HarnessC08Gate"] = HarnessC08Gate
+	vsymHarnesses["HarnessC08Long"] = HarnessC08Long
+}
+
+// HarnessC08Long: candidates that extend the password by 255, 256, 257, 512 or 65536 arbitrary bytes
+// (length arithmetic in a comparison must not wrap), and candidates of the same length that differ.
+func HarnessC08Long() {
+	extra := vsymParamInt("extra", 256)
+	vsymUnwind(extra + 400)
+	P := vsymBytes("password", 1+vsymChoice("passlen", 2))
+	server := NewServer()
+	h := &vhandler{mode: 0}
+	server.SetCommandHandler(h)
+	server.SetRequirePass(string(P))
+	if err := server.Start(); err != nil {
+		vsymFail("start-failed")
+		return
+	}
+	cand := append(append([]byte{}, P...), vsymBytes("suffix", extra)...)
+	in := vReq([]byte("AUTH"), cand)
+	in = append(in, vReqS("GET", "k")...)
+	conn := newVconn(in)
+	server.receive(conn, nil)
+	ends, ok := vStrictStream(conn.out)
+	vsymAssert(ok && len(ends) == 2, "one-reply-per-request")
+	if ok && len(ends) == 2 {
+		vsymAssert(conn.out[0] == '-', "extended-password-is-refused")
+		vsymAssert(vBytesEq(conn.out[ends[0]:], []byte("-not authrized\r\n")), "command-after-refused-auth-is-refused")
+	}
+	vsymAssert(len(h.calls) == 0, "handler-runs-only-after-exact-password")
+	vsymCover("end")
 }
 
 // HarnessC08Gate: requirepass = P (symbolic). A connection sends a sequence of requests: AUTH with
@@ -27,10 +57,23 @@ func HarnessC08Gate() {
 		calls int
 	}
 	var exps []exp
+	small := vsymParamInt("small", 0) == 1
 	for i := 0; i < R; i++ {
-		switch vsymChoice("request", 8) {
+		kind := 0
+		if small {
+			// longer sequences over a reduced alphabet: AUTH with a same-length candidate, GET, PING
+			kind = []int{0, 4, 5}[vsymChoice("request", 3)]
+		} else {
+			kind = vsymChoice("request", 8)
+		}
+		switch kind {
 		case 0:
-			a := vsymBytes("cand", vsymLen("candlen", len(P)+1))
+			var a []byte
+			if small {
+				a = vsymBytes("cand", len(P))
+			} else {
+				a = vsymBytes("cand", vsymLen("candlen", len(P)+1))
+			}
 			in = append(in, vReq([]byte("AUTH"), a)...)
 			exps = append(exps, exp{kind: 1, exact: string(a) == string(P)})
 			vsymCover("auth-one-arg")
